@@ -2,28 +2,61 @@ import Driver.Common
 import Log4rsModel.Routing.Filters
 /-
 C03 driver.
-case   : nodeLevel TAB recordLevel TAB attached TAB appenders
+case   : nodeLevel TAB recordLevel TAB attached TAB appenders [TAB path]
            attached  = `,`-list of appender numbers (the root logger's attachment list, repeats allowed)
-           appenders = `,`-list of  chain;result   chain = `|`-list of A N R T<k>, result = ok | fail
+           appenders = `,`-list of  chain;result   chain = `|`-list of A N R T<k> t<k>, result = ok | fail
+           T<k> = real threshold filter whose consultation is recorded, t<k> = the bare real
+           `ThresholdFilter` object (its consultation is not observable, so the `f` call of that
+           position is left out of the model's and the specification's rendering alike)
+           path = builder (default) | config-yaml | config-json : how the harness constructs the
+           configuration; the model's chain is the declared one on every path
 observation (one field): the calls in order, `,`-separated: f<app>.<idx>  a<app>  h<app>   (`~` = none)
 -/
 namespace Driver.C03
 open Log4rs.Proto Log4rs.Routing Log4rs Driver
 
-def decFilter (s : String) : Option Filter :=
+/-- a filter and whether its consultation is observable -/
+def decFilter (s : String) : Option (Filter × Bool) :=
   match s with
-  | "A" => some (.fixed .accept)
-  | "N" => some (.fixed .neutral)
-  | "R" => some (.fixed .reject)
-  | _ => if s.startsWith "T" then ((s.drop 1).toString.toNat?).map Filter.threshold else none
+  | "A" => some (.fixed .accept, true)
+  | "N" => some (.fixed .neutral, true)
+  | "R" => some (.fixed .reject, true)
+  | _ =>
+    if s.startsWith "T" then ((s.drop 1).toString.toNat?).map fun k => (Filter.threshold k, true)
+    else if s.startsWith "t" then ((s.drop 1).toString.toNat?).map fun k => (Filter.threshold k, false)
+    else none
 
-def decAppender (s : String) : Option AppenderM :=
+/-- the appender and the observability mask of its chain -/
+def decAppender (s : String) : Option (AppenderM × List Bool) :=
   match splitOnChar ';' s with
   | [ch, res] =>
     match mapM? decFilter (decList '|' ch), (if res = "ok" then some false else if res = "fail" then some true else none) with
-    | some ch, some f => some { chain := ch, fails := f }
+    | some ch, some f => some ({ chain := ch.map (·.1), fails := f }, ch.map (·.2))
     | _, _ => none
   | _ => none
+
+/-- drop the consultations of bare threshold filters, which the harness cannot see -/
+def observable (mask : List (List Bool)) (tr : List Event) : List Event :=
+  tr.filter fun e => match e with
+    | .filter a i => ((mask.getD a []).getD i true)
+    | _ => true
+
+inductive Path where
+  | builder | configYaml | configJson
+  deriving DecidableEq
+
+def decPath : Option String → Option Path
+  | none => some .builder
+  | some "builder" => some .builder
+  | some "config-yaml" => some .configYaml
+  | some "config-json" => some .configJson
+  | _ => none
+
+/-- the chain the model attaches on a construction path (Routing/Filters.lean) -/
+def chainOn (p : Path) (declared : List Filter) : List Filter :=
+  match p with
+  | .builder => builderChain declared
+  | _ => (configChain (declared.map FilterEntry.ok)).1
 
 def renderEvent : Event → String
   | .filter a i => "f" ++ toString a ++ "." ++ toString i
@@ -50,6 +83,16 @@ def tagsOf (table : List AppenderM) (nodeLevel : Nat) (attached : List Nat) (lvl
     ++ (if (attached.filter (specErrs table lvl)).length ≥ 2 then ["multi-error"] else [])
     ++ (if !attached.Nodup then ["attached-twice"] else [])
     ++ (if apps.any (fun a => a.chain.length > 5) then ["long-chain"] else [])
+    ++ (if apps.any (fun a => (a.chain.filter (fun f => match f with | .threshold _ => true | _ => false)).length ≥ 2)
+        then ["multi-threshold"] else [])
+    ++ (if apps.any (fun a => match a.chain with
+          | .threshold x :: .threshold y :: _ => x != y
+          | _ => false) then ["leading-thresholds-differ"] else [])
+    ++ (if apps.any (fun a =>
+          let rs := a.chain.map (·.respond lvl)
+          match rs.findIdx? (· = .accept), a.chain.findIdx? (fun f => f.respond lvl = .reject && match f with | .threshold _ => true | _ => false) with
+          | some i, some j => i < j && (rs.take i).all (· = .neutral)
+          | _, _ => false) then ["accept-before-rejecting-threshold"] else [])
   if attached.isEmpty || apps.all (fun a => a.chain.isEmpty && !a.fails) then "trivial" :: t else t
 
 def decEvent (s : String) : Option Event :=
@@ -77,9 +120,8 @@ own filter consultations and `append` calls is the one its own chain prescribes 
 attachment), and the handler got exactly as many of its errors as it returned. The statement does
 not fix how the calls of different appenders interleave, nor when the handler runs; that is left to
 the correspondence check. -/
-def specVerdict (table : List AppenderM) (nl : Nat) (att : List Nat) (rl : Nat) (impl : List Event) :
+def specVerdict (table : List AppenderM) (nl : Nat) (_att : List Nat) (rl : Nat) (want impl : List Event) :
     Option String :=
-  let want := specTrace table nl att rl
   if impl.any (fun e => e.app ≥ table.length) then some "call-to-unknown-appender"
   else if !admits nl rl && !impl.isEmpty then some "not-admitted-record-delivered"
   else
@@ -91,24 +133,76 @@ def specVerdict (table : List AppenderM) (nl : Nat) (att : List Nat) (rl : Nat) 
     else if bad (fun i => cnt isHandler i impl != cnt isHandler i want) then some "handler-calls-differ"
     else none
 
+def insertAll {α} (x : α) : List α → List (List α)
+  | [] => [[x]]
+  | y :: ys => (x :: y :: ys) :: (insertAll x ys).map (y :: ·)
+
+def perms {α} : List α → List (List α)
+  | [] => [[]]
+  | x :: xs => (perms xs).flatMap (insertAll x)
+
+/-- the chain interpreter on filters that keep the position they were declared at as a label -/
+def runLabeled (lvl : Nat) : List (Nat × Filter) → List Nat × Bool
+  | [] => ([], true)
+  | (i, f) :: rest =>
+    match f.respond lvl with
+    | .accept => ([i], true)
+    | .reject => ([i], false)
+    | .neutral => let r := runLabeled lvl rest; (i :: r.1, r.2)
+
+/-- Classifier for the signature only: is what appender `i` received explained by consulting its
+declared filters in some OTHER order? (Chains of up to 6 filters; longer ones are not classified.) -/
+def explainedByReorder (declared : List AppenderM) (mask : List (List Bool)) (att : List Nat) (rl : Nat)
+    (impl : List Event) : Bool :=
+  (List.range declared.length).any fun i =>
+    match declared[i]? with
+    | none => false
+    | some a =>
+      let own (tr : List Event) := (project i tr).filter (fun e => !isHandler e)
+      let block (order : List (Nat × Filter)) : List Event :=
+        let r := runLabeled rl order
+        observable mask (r.1.map (Event.filter i) ++ (if r.2 then [Event.append i] else []))
+      let times (b : List Event) := (List.replicate (att.count i) b).flatten
+      let labelled := a.chain.zipIdx.map fun p => (p.2, p.1)
+      a.chain.length ≤ 6 && own impl != times (block labelled) &&
+        (perms labelled).any fun o => own impl == times (block o)
+
 def handle : Handler := fun cas obs =>
   match cas, obs with
-  | [nl, rl, att, apps], [implObs] =>
-    match decNat nl, decNat rl, mapM? decNat (decList ',' att), mapM? decAppender (decList ',' apps) with
-    | some nl, some rl, some att, some table =>
-      if att.any (· ≥ table.length) then badCase "attachment out of range" else
-      let want := renderTrace (specTrace table nl att rl)
-      { model := renderOutcome (fanout table nl att rl),
+  | nl :: rl :: att :: apps :: rest, [implObs] =>
+    match decNat nl, decNat rl, mapM? decNat (decList ',' att), mapM? decAppender (decList ',' apps),
+          (if rest.length ≤ 1 then decPath rest.head? else none) with
+    | some nl, some rl, some att, some decoded, some path =>
+      let mask := decoded.map (·.2)
+      let declared := decoded.map (·.1)
+      if att.any (· ≥ declared.length) then badCase "attachment out of range" else
+      -- model: the chain as the construction path attaches it; spec: the declared chain
+      let table := declared.map fun a => { a with chain := chainOn path a.chain }
+      let wantEvents := observable mask (specTrace declared nl att rl)
+      let want := renderTrace wantEvents
+      let viaConfig := path ≠ .builder
+      { model := match fanout table nl att rl with
+          | .ok tr => renderTrace (observable mask tr)
+          | _ => "PANIC",
         spec :=
-          if implObs = "PANIC" then "FAIL:panic;sig=C03/panic" else
+          if implObs = "PANIC" then "FAIL:panic;sig=C03/panic"
+          else if implObs = "CONFIG-ERROR" then "FAIL:config-not-loaded;sig=C03/config-path-not-loaded" else
           match mapM? decEvent (decList ',' implObs) with
           | none => "FAIL:unreadable-observation;sig=C03/unreadable-observation"
           | some impl =>
-            match specVerdict table nl att rl impl with
+            match specVerdict declared nl att rl wantEvents impl with
             | none => "ok"
-            | some clause => "FAIL:" ++ clause ++ " expected " ++ want ++ ";sig=C03/" ++ clause,
-        tags := tagsOf table nl att rl }
-    | _, _, _, _ => badCase "fields"
+            | some clause =>
+              let sig :=
+                if viaConfig && (clause = "deliveries-differ" || clause = "filter-consultations-differ")
+                   && admits nl rl && explainedByReorder declared mask att rl impl
+                then "config-path-reorders-filters" else clause
+              "FAIL:" ++ clause ++ " expected " ++ want ++ ";sig=C03/" ++ sig,
+        tags := (match path with
+          | .builder => "path-builder" | .configYaml => "path-config-yaml" | .configJson => "path-config-json")
+          :: (if mask.any (·.any (!·)) then ["bare-threshold"] else [])
+          ++ tagsOf declared nl att rl }
+    | _, _, _, _, _ => badCase "fields"
   | _, _ => badCase "arity"
 
 end Driver.C03
